@@ -9,14 +9,14 @@ use std::time::Instant;
 pub fn cases(ctx: &Ctx) -> Vec<WCase> {
     let mut out = vec![];
     let mut r = Rng::new(ctx.seed ^ 0xC03);
-    for i in 0..ctx.n(1800, 80_000) {
+    for i in 0..ctx.n(8000, 400_000) {
         let mut rr = r.fork(i as u64);
         let mut s = gen_c01_space(&mut rr, 400);
         // held inputs so that predictions are sometimes right
         s.sticky = rr.pick(&[1u32, 3, 3, 10, 10]);
         out.push(wcase(format!("c01space-{i}"), s));
     }
-    for i in 0..ctx.n(900, 40_000) {
+    for i in 0..ctx.n(4000, 200_000) {
         let mut rr = r.fork(0x2000_0000 + i as u64);
         out.push(wcase(format!("death2-{i}"), gen_death2(&mut rr, 400)));
     }
